@@ -3,10 +3,10 @@
 
 def config(T):
     return {
-        "C01": dict(pkg="c01", tests=[T("TestPinned"), T("TestExec", 2400, 80000, sq=4, st=16, race=True), T("TestExecUnionEdge", 800, 16000, sq=2, st=8)]),
+        "C01": dict(pkg="c01", tests=[T("TestPinned"), T("TestExec", 2400, 80000, sq=4, st=16, race=True), T("TestExecUnionEdge", 800, 16000, sq=2, st=8), T("TestExecSharedFragments", 1200, 32000, sq=4, st=8, race=True)]),
         "C02": dict(pkg="c02", tests=[T("TestConverge", 800, 32000, sq=8, st=16, race=True)]),
-        "C03": dict(pkg="c03", tests=[T("TestPinned"), T("TestRoundTrip", 12000, 400000, sq=4, st=16)]),
-        "C06": dict(pkg="c06", race_quick=True, tests=[T("TestKnownTypename"), T("TestTransparent", 160, 8000, sq=8, st=16), T("TestDirectivesGateway", 80, 4000, sq=4, st=8),
+        "C03": dict(pkg="c03", fuzz=[dict(name="FuzzRoundTrip", secs=60)], tests=[T("TestPinned"), T("TestRoundTrip", 12000, 400000, sq=4, st=16)]),
+        "C06": dict(pkg="c06", race_quick=True, tests=[T("TestKnownTypename"), T("TestSiblingHops", race=True), T("TestTransparent", 640, 16000, sq=8, st=16), T("TestDirectivesGateway", 80, 4000, sq=4, st=8),
                                                        T("TestConcurrentRefresh", 30, 600, sq=1, st=4, race=True, timeout_q=900)]),
         "C07": dict(pkg="c07", tests=[T("TestLiveSQL", 800, 32000, sq=8, st=16, race=True)]),
         "C08": dict(pkg="c08", tests=[T("TestCache", 2400, 96000, sq=8, st=16, race=True)]),
@@ -16,7 +16,7 @@ def config(T):
         "C12": dict(pkg="c12", tests=[T("TestShardLimit", 2400, 64000, sq=4, st=16)]),
         "C13": dict(pkg="c13", tests=[T("TestCodec", 6000, 300000, sq=4, st=16), T("TestProtoFilter", 3000, 100000, sq=2, st=8)]),
         "C14": dict(pkg="c14", tests=[T("TestPinned"), T("TestAdvertised", 600, 24000, sq=4, st=16), T("TestMethodShapes", 3000, 120000, sq=2, st=8)]),
-        "C15": dict(pkg="c15", tests=[T("TestPinned"), T("TestDocuments", 12000, 600000, sq=4, st=16), T("TestBombs", 200, 2000, sq=2, st=4),
+        "C15": dict(pkg="c15", fuzz=[dict(name="FuzzPipeline", secs=90)], tests=[T("TestPinned"), T("TestDocuments", 12000, 600000, sq=4, st=16), T("TestBombs", 200, 2000, sq=2, st=4),
                                       T("TestEnvelopes", 600, 20000, sq=2, st=8, race=True), T("TestHTTP", 800, 20000, sq=2, st=4),
                                       T("TestPanicContained", 150, 3000, sq=1, st=4, race=True), T("TestCancellation", 200, 4000, sq=1, st=1), T("TestGatewayCancellation", 150, 3000, sq=1, st=1)]),
         "C16": dict(pkg="c16", tests=[T("TestDirect", 4000, 120000, sq=4, st=12), T("TestSocket", 600, 12000, sq=4, st=8, race=True)]),
